@@ -1583,4 +1583,120 @@ theorem p_replace_no_gap_sound (re : Bytes → Bytes → Bool) (ops : List Op)
   exact lookup_sound_A re hst.1 hst.2 hN
     (p_replace_no_gap_stepwise re ops old c0 c hp N hN hbefore hafter s' hs')
 
+
+-- =============================================================== part 5 ==
+-- C07 on the resolver: a command answered with an error leaves no trace, a
+-- command touches only the certificates it names (any state, no invariant needed)
+
+theorem step_fst (s : State) (op : Op) :
+    (step s op).1 = if s.dead then s else apply s op := by
+  unfold step
+  by_cases hd : s.dead = true
+  · simp [hd]
+  · simp only [hd, Bool.false_eq_true, if_false]
+    cases op with
+    | add c =>
+      cases hp : prepare c with
+      | none => simp only [apply, hp]; split <;> rfl
+      | some c' => simp only [apply, hp]; split <;> rfl
+    | replace old c =>
+      cases hp : prepare c with
+      | none => simp only [apply, hp]; split <;> rfl
+      | some c' => simp only [apply, hp]; split <;> rfl
+    | addInvalid => simp only [apply]; split <;> rfl
+    | removeInvalid => simp only [apply]; split <;> rfl
+    | replaceInvalid o => simp only [apply]; split <;> rfl
+    | remove fp => simp only [apply]; split <;> rfl
+
+theorem p_resolver_error_is_noop (s : State) (op : Op) (h : (step s op).2 = Out.err) :
+    (step s op).1 = s := by
+  by_cases hd : s.dead = true
+  · simp [step, hd] at h
+  · rw [step_fst]
+    simp only [hd, Bool.false_eq_true, if_false]
+    unfold step at h
+    simp only [hd, Bool.false_eq_true, if_false] at h
+    cases op with
+    | add c =>
+      cases hp : prepare c with
+      | none => simp only [apply, hp]
+      | some c' => simp only [hp] at h; split at h <;> cases h
+    | replace old c =>
+      cases hp : prepare c with
+      | none => simp only [apply, hp]
+      | some c' => simp only [hp] at h; split at h <;> cases h
+    | addInvalid => rfl
+    | removeInvalid => rfl
+    | replaceInvalid o => rfl
+    | remove fp => simp only [] at h; split at h <;> cases h
+
+/-- the error branches are exactly: unparsable PEM / key (add, replace), names
+    `try_from` refuses (add, replace), a fingerprint text that is not hex (remove) -/
+theorem p_resolver_error_iff (s : State) (op : Op) (hd : s.dead = false) :
+    (step s op).2 = Out.err ↔
+      (match op with
+        | .add c => prepare c = none
+        | .replace _ c => prepare c = none
+        | .addInvalid => True
+        | .removeInvalid => True
+        | .replaceInvalid _ => True
+        | .remove _ => False) := by
+  unfold step
+  simp only [hd, Bool.false_eq_true, if_false]
+  cases op with
+  | add c =>
+    cases hp : prepare c with
+    | none => simp [hp, hd]
+    | some c' => simp only [hp]; split <;> simp
+  | replace old c =>
+    cases hp : prepare c with
+    | none => simp [hp, hd]
+    | some c' => simp only [hp]; split <;> simp
+  | addInvalid => simp [hd]
+  | removeInvalid => simp [hd]
+  | replaceInvalid o => simp [hd]
+  | remove fp => simp only []; split <;> simp
+
+/-- `op` names the certificate with fingerprint `fp` -/
+def Touches (fp : Fp) : Op → Prop
+  | .add c => c.fp = fp
+  | .remove f => f = fp
+  | .replace old c => c.fp = fp ∨ old = some fp
+  | _ => False
+
+theorem p_resolver_touches_only_named (s : State) (op : Op) (fp : Fp) (h : ¬ Touches fp op) :
+    KMap.get? (step s op).1.certs fp = KMap.get? s.certs fp := by
+  rw [step_fst]
+  split
+  · rfl
+  · cases op with
+    | add c =>
+      simp only [apply]
+      cases hp : prepare c with
+      | none => rfl
+      | some c' =>
+        have : fp ≠ c'.fp := fun e => h (by rw [Touches, ← (prepare_good hp).1]; exact e.symm)
+        exact get_certs_add s c' fp this
+    | addInvalid => rfl
+    | removeInvalid => rfl
+    | replaceInvalid o => rfl
+    | remove o =>
+      have : fp ≠ o := fun e => h e.symm
+      simp [apply, get_certs_remove, this]
+    | replace old c =>
+      simp only [apply]
+      cases hp : prepare c with
+      | none => rfl
+      | some c' =>
+        have hne : fp ≠ c'.fp := fun e => h (Or.inl (by rw [← (prepare_good hp).1]; exact e.symm))
+        simp only [replace]
+        split
+        · rfl
+        · cases old with
+          | none => exact get_certs_add s c' fp hne
+          | some o =>
+            have ho : fp ≠ o := fun e => h (Or.inr (by rw [e]))
+            simp only [get_certs_remove, ho, if_false]
+            exact get_certs_add s c' fp hne
+
 end Sozu.Tls
